@@ -15,7 +15,8 @@ TEXT = ("M1: the array merge never removes: no call with a removing effect (remo
         "(winning) revision, and the loop has no early exit other than error propagation. "
         "M4: in read an object enters the reconstruction map only under `!winner.is_deleted()`, and unflatten consumes "
         "each referenced object with HashMap::remove (never get) and pushes an array element only on the found edge. "
-        "Does not decide the relative-order clauses (they depend on where pivots fall, i.e. on values).")
+        "Does not decide the relative-order clauses (they depend on where pivots fall, i.e. on values)."
+        " M2e: the search that decides insertion runs over the whole destination. M3b: array views built from a stored revision go through the fold. M5: every array under a flattened key gets a descriptor, whatever it contains.")
 TECHNIQUE = 'static analysis over rustc MIR: who-may-remove on the merge destination, must-pass insert discipline per loop iteration, fold seeding and exhaustiveness, consuming-lookup check in unflatten'
 TRUSTED = ["rustc nightly MIR", "Vec::insert / push add exactly one element", "HashMap::remove consumes the entry"]
 
